@@ -98,6 +98,17 @@ def routeViolation (typ fb : String) (refreshOnMiss : Bool) (outcome : Refresh) 
   else if !clauseDecisionAgrees outcome healthy listers o then some "decision-disagrees-with-result"
   else none
 
+/-- Clause 0 (C11's provider constraint seen from the strategy): whatever is returned was offered as a candidate —
+    the caller's list is the set of endpoints the route allows. -/
+def clauseWithinCandidates (healthy : List Ep) (o : Obs) : Bool :=
+  o.eps.all (fun e => healthy.contains e)
+
+/-- All clauses for a call whose refresh returned `outcome`: "the healthy set" of clause 4 is read relative to the
+    candidates — after a refresh, the candidates that are (still) healthy. -/
+def routeViolationC (typ fb : String) (refreshOnMiss : Bool) (outcome : Refresh) (healthy listers : List Ep) (o : Obs) : Option String :=
+  if !clauseWithinCandidates healthy o then some "returned-endpoint-outside-candidates"
+  else routeViolation typ fb refreshOnMiss (effOutcome .fixed outcome healthy) healthy listers o
+
 /-! ### Which endpoints "list M" when all we have is the listings
 
 "whose latest model listing contains M (by native name, unified id or alias)". Native names are exact;
